@@ -39,6 +39,7 @@ type op struct {
 	Cls      bool   // newClasses passed
 	WrongCnt bool   // D: baseTxCount off by one
 	Misalign bool   // F: oldestPreConf argument off by one (alignment error path)
+	Extra    bool   // N: newClasses additionally carries a second class E(slot)
 }
 
 func (o op) String() string {
@@ -62,6 +63,9 @@ func (o op) String() string {
 		}
 		return s + ")"
 	case 'N':
+		if o.Extra {
+			return fmt.Sprintf("nochange(%d,cls+extra)", o.Slot)
+		}
 		if o.Cls {
 			return fmt.Sprintf("nochange(%d,cls)", o.Slot)
 		}
@@ -160,7 +164,7 @@ func (w *world) alphabet(cfg alphaCfg) []op {
 				out = append(out, op{Kind: 'D', Slot: t - 1, ID: tipID, Count: tipCnt}) // non-tip
 			}
 		}
-		out = append(out, op{Kind: 'N', Slot: t}, op{Kind: 'N', Slot: t, Cls: true})
+		out = append(out, op{Kind: 'N', Slot: t}, op{Kind: 'N', Slot: t, Cls: true}, op{Kind: 'N', Slot: t, Cls: true, Extra: true})
 		if t > o {
 			out = append(out, op{Kind: 'N', Slot: t - 1, Cls: true})
 		}
@@ -217,6 +221,10 @@ func (w *world) apply(o op) (errText, panicText string) {
 					tipID = 0
 				}
 				cls = classesFor(o.Slot, tipID)
+				if o.Extra {
+					c, h := extraClass(o.Slot)
+					cls[h] = c
+				}
 			}
 			if _, err := w.st.ApplyUpdate(starknet.PreConfirmedNoChange{}, o.Slot, 0, w.wb, cls); err != nil {
 				errText = err.Error()
@@ -340,7 +348,7 @@ func (x *explorer) visit(w *world, path []op) bool {
 		culprit, changed, confirmed := x.attribute(path, alpha)
 		key := "published-view-changed-after-later-operation"
 		if !confirmed {
-			key = "published-view-changed (not reproduced on clean replay)"
+			key = "published-view-changed (no single writer operation reproduces it on a clean replay; see reader violations)"
 		}
 		x.r.Violate(key+" by="+opClass(culprit), map[string]any{"path": pathString(path), "culprit": culprit, "view_after": changed,
 			"view_before_index": bad[0], "published_after_ops": w.roots[bad[0]].at})
@@ -358,9 +366,9 @@ func (x *explorer) visit(w *world, path []op) bool {
 				x.maxLen.Store(int64(k.result.Length()))
 			}
 		}
-		x.readers(w, npath)
-		ok := true
-		if len(npath) == x.splitAt {
+		ok := x.readers(w, npath) // false: a read changed a published view (reported there); shared objects are no longer trustworthy
+		if !ok {
+		} else if len(npath) == x.splitAt {
 			x.tasks = append(x.tasks, npath)
 		} else {
 			ok = x.visit(w, npath)
@@ -421,7 +429,8 @@ func (x *explorer) visitRobust(path []op) {
 
 // readers: at this position, a reader that read ANY head height h takes its snapshot. Every request that can
 // return a non-empty view, plus one on either side, is issued: q = h+1 in [o-1 .. t+1].
-func (x *explorer) readers(w *world, path []op) {
+func (x *explorer) readers(w *world, path []op) (pure bool) {
+	pure = true
 	empty, o, t, _, _ := w.geometry()
 	lo, hi := w.wb-1, w.wb+1
 	if !empty {
@@ -439,10 +448,11 @@ func (x *explorer) readers(w *world, path []op) {
 			// earlier-or-equal position x observation at any later-or-equal position
 			x.placements.Add(int64(len(path)+1) * int64(x.depth-len(path)+1))
 		}
-		if ok {
-			x.c.functional(&v, entries, p, ctx)
+		if ok && !x.c.functional(&v, entries, p, ctx) {
+			pure = false
 		}
 	}
+	return
 }
 
 func errClass(s string) string {
@@ -507,7 +517,7 @@ func TestCheck(t *testing.T) {
 	r.Set("A_nomemo_depth", int64(x2.depth))
 	r.Set("A_nomemo_view_evaluations", chk2.evalReal.Load())
 
-	pollerHarness(r, canons)
+	pollerHarness(t, r, canons)
 	raceSmoke(r)
 
 	if classPoolDigest() != classesBefore {
